@@ -15,28 +15,9 @@ open Finset
 
 variable {α : Type} [AddCommMonoid α]
 
-/-- No product `k·offset` (`0 < k < n`) is `≡ 0 (mod 2^64)`: then the code's test `k != 0`
-    on the wrapped Go `int` product means what it is meant to mean.  (Implied by
-    `n·|offset| < 2^63`, see `noWrapZero_of_small`; violated e.g. by `offset = 2^62, n = 5`.) -/
-def NoWrapZero (n : Nat) (off : Int) : Prop :=
-  ∀ k : Nat, 0 < k → k < n → wrapInt ((k : Int) * off) ≠ 0
-
 theorem wrapInt_of_small (x : Int) (h1 : -9223372036854775808 ≤ x) (h2 : x < 9223372036854775808) :
     wrapInt x = x := by
   unfold wrapInt; omega
-
-theorem noWrapZero_of_small (n : Nat) (off : Int) (hoff : off ≠ 0)
-    (h : (n : Int) * |off| ≤ 9223372036854775808) : NoWrapZero n off := by
-  intro k hk0 hkn
-  have hk : ((k : Int) + 1) ≤ n := by exact_mod_cast hkn
-  have habs : |(k : Int) * off| = (k : Int) * |off| := by
-    rw [abs_mul, abs_of_nonneg (by positivity)]
-  have hpos : 0 < |off| := abs_pos.mpr hoff
-  have hlt : (k : Int) * |off| < 9223372036854775808 := by nlinarith
-  have hb := abs_lt.mp (by rw [habs]; exact hlt : |(k : Int) * off| < 9223372036854775808)
-  rw [wrapInt_of_small _ (by omega) hb.2]
-  have : (0 : Int) < k := by exact_mod_cast hk0
-  exact mul_ne_zero (by omega) hoff
 
 variable (S : Ops α) (m : Nat) (n : Nat) (off : Int) (v : α)
 
@@ -57,7 +38,7 @@ theorem aut_wrap_block (hS : Lawful S (2 ^ m)) (hm1 : 1 ≤ m) (hm : m ≤ 64) (
   rw [galEl_wrapInt]; exact this
 
 /-- a turn below the top bit keeps the invariant -/
-theorem step_mid (hS : Lawful S (2 ^ m)) (hm1 : 1 ≤ m) (hm : m ≤ 64) (hnw : NoWrapZero n off)
+theorem step_mid (hS : Lawful S (2 ^ m)) (hm1 : 1 ≤ m) (hm : m ≤ 64)
     (lazy : Bool) (i : Nat) (st : PState α) (hinv : Inv S m n off v i st) (hj : 2 ≤ n / 2 ^ i) :
     Inv S m n off v (i + 1) (ptsStep S S.add lazy (2 ^ m) n off i (n / 2 ^ i) st) := by
   obtain ⟨hstate, hct, hacc⟩ := hinv
@@ -76,8 +57,7 @@ theorem step_mid (hS : Lawful S (2 ^ m)) (hm1 : 1 ≤ m) (hm : m ≤ 64) (hnw : 
   · -- bit i is set: a block goes to the accumulator
     have hmod := mod_succ_odd n i hodd
     have hk0 : 0 < n - n % 2 ^ (i + 1) := by omega
-    have hkn : n - n % 2 ^ (i + 1) < n := by omega
-    have hk := hnw _ hk0 hkn
+    have hk : n - n % 2 ^ (i + 1) ≠ 0 := by omega
     simp only [hodd, if_true, and_mask, ne_eq, hk, not_false_eq_true]
     have hblock : S.aut (galEl (2 ^ m) (wrapInt (((n - n % 2 ^ (i + 1) : Nat) : Int) * off))) st.ct
         = ∑ r ∈ Ico (n - n % 2 ^ (i + 1)) (n - n % 2 ^ i), term S (2 ^ m) off v r := by
@@ -112,8 +92,8 @@ theorem step_top (hS : Lawful S (2 ^ m)) (lazy : Bool) (i : Nat) (st : PState α
     have := Nat.lt_mul_div_succ n hpi
     rw [hj] at this; rw [pow_succ]; omega
   have hmod : n % 2 ^ (i + 1) = n := Nat.mod_eq_of_lt h2
-  have hk : wrapInt (((n - n % 2 ^ (i + 1) : Nat) : Int) * off) = 0 := by
-    rw [hmod]; simp [wrapInt]
+  have hk : n - n % 2 ^ (i + 1) = 0 := by
+    rw [hmod]; simp
   have hsub : n - n % 2 ^ i = 2 ^ i := by
     have := Nat.div_add_mod n (2 ^ i); rw [hj] at this; omega
   unfold ptsStep
@@ -137,7 +117,7 @@ theorem ptsLoop_zero_j (f : α → α → α) (lazy : Bool) (N : Nat) (fuel i : 
   cases fuel <;> simp [ptsLoop]
 
 /-- the loop started from a state satisfying the invariant returns the full sum -/
-theorem ptsLoop_spec (hS : Lawful S (2 ^ m)) (hm1 : 1 ≤ m) (hm : m ≤ 64) (hnw : NoWrapZero n off)
+theorem ptsLoop_spec (hS : Lawful S (2 ^ m)) (hm1 : 1 ≤ m) (hm : m ≤ 64)
     (lazy : Bool) : ∀ (fuel i : Nat) (st : PState α), Inv S m n off v i st →
       0 < n / 2 ^ i → n / 2 ^ i < 2 ^ fuel →
       (ptsLoop S S.add lazy (2 ^ m) n off fuel i (n / 2 ^ i) st).out
@@ -155,7 +135,7 @@ theorem ptsLoop_spec (hS : Lawful S (2 ^ m)) (hm1 : 1 ≤ m) (hm : m ≤ 64) (hn
     · have hdd : n / 2 ^ i / 2 = n / 2 ^ (i + 1) := by
         rw [Nat.div_div_eq_div_mul, pow_succ]
       rw [hdd]
-      apply ih (i + 1) _ (step_mid hS hm1 hm hnw lazy i st hinv (by omega))
+      apply ih (i + 1) _ (step_mid hS hm1 hm lazy i st hinv (by omega))
       · rw [← hdd]; omega
       · rw [← hdd]; rw [pow_succ] at h1; omega
 
@@ -166,44 +146,43 @@ theorem inv_init (hS : Lawful S (2 ^ m)) (hm1 : 1 ≤ m) (hm : m ≤ 64) (out0 a
   refine ⟨rfl, ?_, Or.inl ⟨rfl, by simp [Nat.mod_one]⟩⟩
   simp [term, rot_zero hS hm1 hm]
 
-/-- **`innerSum_spec` (rlwe level).** For every `offset ≠ 0` and every count `n ≥ 1` (as Go
-    `int`s, with `n < 2^63` automatically) such that no partial product wraps to zero,
-    `PartialTracesSum(ct, offset, n)` returns `Σ_{r<n} rot(r·offset) ct`, whatever the previous
-    contents of the output and accumulator buffers. -/
+/-- **`innerSum_spec` (rlwe level).** For every `offset ≠ 0` and every count `n ≥ 1` (Go `int`s:
+    `n < 2^63`), on parameters with an auxiliary modulus, `PartialTracesSum(ct, offset, n)` returns
+    `Σ_{r<n} rot(r·offset) ct`, whatever the previous contents of the output and accumulator
+    buffers and however the products `r·offset` wrap in `int` arithmetic. -/
 theorem partialTracesSum_spec (hS : Lawful S (2 ^ m)) (hm1 : 1 ≤ m) (hm : m ≤ 64)
-    (v out0 acc0 : α) (offset n : Int) (hn : 1 ≤ n) (hn63 : n < 9223372036854775808) (hoff : offset ≠ 0)
-    (hnw : NoWrapZero n.toNat offset) :
-    (partialTracesSum S (2 ^ m) v out0 acc0 offset n).val?
+    (v out0 acc0 : α) (offset n : Int) (hn : 1 ≤ n) (hn63 : n < 9223372036854775808) (hoff : offset ≠ 0) :
+    (partialTracesSum S (2 ^ m) true v out0 acc0 offset n).val?
       = some (∑ r ∈ range n.toNat, rot S (2 ^ m) ((r : Int) * offset) v) := by
   unfold partialTracesSum
-  have h0 : ¬ (n = 0 ∨ offset = 0) := by omega
-  rw [if_neg h0]
+  have h0 : ¬ (n ≤ 0 ∨ offset = 0) := by omega
+  rw [if_neg h0, if_neg (by simp)]
   by_cases h1 : n = 1
   · subst h1
     simp [Res.val?, rot_zero hS hm1 hm]
   · rw [if_neg h1]
     simp only [Res.val?]
     have hpos : 0 < n.toNat := by omega
-    have := ptsLoop_spec (v := v) hS hm1 hm hnw true 64 0 _ (inv_init hS hm1 hm out0 acc0)
+    have := ptsLoop_spec (n := n.toNat) (v := v) (off := offset) hS hm1 hm true 64 0 _ (inv_init hS hm1 hm out0 acc0)
       (by simpa using hpos) (by simp; omega)
     simp only [pow_zero, Nat.div_one] at this
     rw [this]; rfl
 
-/-- `InnerFunction` with `f = Add` computes the same sum (it has no argument check: the
-    statement needs `n ≥ 1` and `batch ≠ 0` as hypotheses). -/
+/-- `InnerFunction` with `f = Add` computes the same sum for every `batchSize` (zero included:
+    then all rotations are the identity) and every `n ≥ 1`. -/
 theorem innerFunction_add_spec (hS : Lawful S (2 ^ m)) (hm1 : 1 ≤ m) (hm : m ≤ 64)
-    (v out0 acc0 : α) (batch n : Int) (hn : 1 ≤ n) (hn63 : n < 9223372036854775808)
-    (hnw : NoWrapZero n.toNat batch) :
+    (v out0 acc0 : α) (batch n : Int) (hn : 1 ≤ n) (hn63 : n < 9223372036854775808) :
     (innerFunction S S.add (2 ^ m) v out0 acc0 batch n).val?
       = some (∑ r ∈ range n.toNat, rot S (2 ^ m) ((r : Int) * batch) v) := by
   unfold innerFunction
+  rw [if_neg (by omega)]
   by_cases h1 : n = 1
   · subst h1
     simp [Res.val?, rot_zero hS hm1 hm]
   · rw [if_neg h1]
     simp only [Res.val?]
     have hpos : 0 < n.toNat := by omega
-    have := ptsLoop_spec (v := v) hS hm1 hm hnw false 64 0 _ (inv_init hS hm1 hm out0 acc0)
+    have := ptsLoop_spec (n := n.toNat) (v := v) (off := batch) hS hm1 hm false 64 0 _ (inv_init hS hm1 hm out0 acc0)
       (by simpa using hpos) (by simp; omega)
     simp only [pow_zero, Nat.div_one] at this
     rw [this]; rfl
